@@ -26,19 +26,24 @@
 (* address the key exchange was dialled at), "A", "B"; ports: the standard *)
 (* NTP port, 4001, 4002.                                                   *)
 (*                                                                         *)
-(* Switches (code as written / repaired):                                  *)
-(*   ResidueAfterFailure  TRUE : an error return of exchangeKeys leaves    *)
-(*                               Fetcher.data as it is at that moment      *)
-(*                               (DESIGN.md section 5, finding e)          *)
-(*                        FALSE: Fetcher.data is cleared on error          *)
-(*   ShortCookieRead      TRUE : a cookie body is read with one            *)
-(*                               reader.Read, so a body cut short by the   *)
-(*                               end of the stream is still appended       *)
+(* Switches (default = the repaired behaviour; the other value is kept as  *)
+(* a specification self-test and for strict-mode matching of older code): *)
+(*   ResidueAfterFailure  FALSE: FetchData clears Fetcher.data when        *)
+(*                               exchangeKeys fails (repo commit 9a6202f)  *)
+(*                        TRUE : an error return leaves Fetcher.data as it *)
+(*                               is at that moment (DESIGN.md 5, finding e)*)
+(*   ShortCookieRead      FALSE: cookie bodies are read completely         *)
+(*                               (repo commit b190383)                     *)
+(*                        TRUE : one reader.Read, so a body cut short by   *)
+(*                               the end of the stream is still appended   *)
 (*                               (finding d, property C14)                 *)
-(*   DialResetsData       TRUE : dialTLS's result is assigned to           *)
-(*                               Fetcher.data (TLS transport)              *)
+(*   DialResetsData       TRUE : the dial result (key-exchange host,       *)
+(*                               standard NTP port) is assigned to         *)
+(*                               Fetcher.data: the TLS branch, and the     *)
+(*                               QUIC branch with fixes/C20-quic-dial-     *)
+(*                               defaults.diff                             *)
 (*                        FALSE: dialQUIC's Data result is discarded by    *)
-(*                               exchangeKeys (QUIC transport as written)  *)
+(*                               exchangeKeys (QUIC branch as it is)       *)
 (***************************************************************************)
 EXTENDS Integers, Sequences, FiniteSets, TLC
 
